@@ -20,8 +20,11 @@ for d in sorted(glob.glob(src + "/C*/out/?")) + sorted(glob.glob(src + "/C*-*/")
         print(sid, "PATCH DOES NOT APPLY", flush=True)
         continue
     res = {}
-    for p in props:
-        r = subprocess.run([V + "/check", p], env=dict(os.environ, VERIF_REPO=W), stdout=subprocess.PIPE, stderr=subprocess.STDOUT, text=True)
+    subprocess.run([V + "/check", props[0]], env=dict(os.environ, VERIF_REPO=W), stdout=subprocess.PIPE, stderr=subprocess.STDOUT, text=True)   # fills the fact cache
+    from concurrent.futures import ThreadPoolExecutor
+    with ThreadPoolExecutor(8) as ex:
+        rs = list(ex.map(lambda p: subprocess.run([V + "/check", p], env=dict(os.environ, VERIF_REPO=W), stdout=subprocess.PIPE, stderr=subprocess.STDOUT, text=True), props))
+    for p, r in zip(props, rs):
         keys = re.findall(r"^  \S+ (\S+?:.*) at ", r.stdout, flags=re.M)
         if r.returncode != 0:
             res[p] = {"rc": r.returncode, "violations": [k[:200] for k in keys][:6]}
